@@ -136,6 +136,7 @@ package cbreaker
 //@   ensures standby_passes: callres(isStandby, 0, 0) ==> !result
 //@   ensures passed_means_standby_or_ramp: !result && !callres(isStandby, 0, 0) ==> c.state == 0 || (c.state == 2 && c.rc.allowed >= 1)
 //@   ensures only_legal_moves: c.state == old(c.state) || edge(old(c.state), c.state) || (old(c.state) == 1 && c.state == 0)
+//@   ensures {C12} recovering_until_the_period_is_over: !callres(isStandby, 0, 0) && old(c.state) == 2 && lastclock <= old(c.until) ==> c.state == 2
 //@   ensures recovery_ends_in_standby: !callres(isStandby, 0, 0) && old(c.state) == 2 && lastclock > old(c.until) ==> c.state == 0 && !result
 //@   ensures fallback_period_over: !callres(isStandby, 0, 0) && old(c.state) == 1 && lastclock >= old(c.until) ==> c.state == 2 || c.state == 0
 //@   ensures {C12} every_request_of_the_recovery_is_counted: !callres(isStandby, 0, 0) && c.state == 2 ==> c.rc.allowed + c.rc.denied == ite(old(c.state) == 2, old(c.rc.allowed) + old(c.rc.denied), 0) + 1 && (result <==> c.rc.denied == ite(old(c.state) == 2, old(c.rc.denied), 0) + 1)
